@@ -289,17 +289,20 @@ Definition run_case (c : model * list ttp) : list Z :=
   (* hypotheses of the whole-run C03 theorem on the last instruction of a list
      (last_hypb, sound: Proofs/LastOkSound.v): how many generated lists end
      with an inserted QUANTIZE / DEQUANTIZE, and how many of those meet them *)
-  let lastn := match r1 with
+  (* (lists are taken with the NO_QUANTIZE instructions, which the performer
+     skips, dropped: C03_no_quantize_instructions_are_inert) *)
+  let r1s : res (list tinsts) := match r1 with Ok tis => Ok (map strip tis) | Err e => Err e end in
+  let lastn := match r1s with
                | Ok tis => Z.of_nat (length (filter last_is_insertion tis))
                | Err _ => 0 end in
-  let lastok := match r1 with
+  let lastok := match r1s with
                 | Ok tis => Z.of_nat (length (filter (fun nt => last_is_insertion (snd nt)
                                                        && last_hypb (fst c) tis (Z.to_nat (fst nt)))
                                                      (enumerate tis)))
                 | Err _ => 0 end in
   flat (JL [Jres (Jlist J_tinsts) r1; Jres J_model r2; JB hyp; JB concl; JB wo; JB (negb wo || sem);
             JB (wo && planok); JZ lastn; JZ lastok;
-            JL (match r1 with
+            JL (match r1s with
                 | Ok tis => map (fun nt => JZ (last_why (fst c) tis (Z.to_nat (fst nt))))
                                 (filter (fun nt => last_is_insertion (snd nt)) (enumerate tis))
                 | Err _ => [] end)]).
